@@ -1229,9 +1229,11 @@ class Connection(object):
                 self._process_segment_buffer()
                 self._io_buffer.reset_io_buffer()
 
-            if self._is_checksumming_enabled and not self._io_buffer.has_consumed_segment:
-                # We couldn't read an entire segment from the io buffer, so return
-                # control to allow more bytes to be read off the wire
+            if self._is_checksumming_enabled and not self._io_buffer.has_consumed_segment \
+                    and not self._io_buffer.readable_cql_frame_bytes():
+                # We couldn't read an entire segment from the io buffer and no frame
+                # of an earlier segment is left to hand out, so return control to
+                # allow more bytes to be read off the wire
                 return
 
             if not self._current_frame:
@@ -1240,7 +1242,8 @@ class Connection(object):
                 pos = self._io_buffer.readable_cql_frame_bytes()
 
             if not self._current_frame or pos < self._current_frame.end_pos:
-                if self._is_checksumming_enabled and self._io_buffer.readable_io_bytes():
+                if self._is_checksumming_enabled and self._io_buffer.readable_io_bytes() \
+                        and self._io_buffer.has_consumed_segment:
                     # We have a multi-segments message, and we need to read more
                     # data to complete the current cql frame
                     continue
